@@ -18,6 +18,11 @@ SPEC = {
         "C20: coq/C20/Jvms.v — JVMS 4.1-4.7 layouts transcribed by hand in the same declaration language (the specification side of layout_is_jvms)",
         "C20: the harness' strict JVMS walker (harness/src/bin/c20.rs mod jvms) and duke::read_class are the independent consumers used by the oracle that searches failing inputs on the implementation",
     ],
+    "stated_not_proved": [
+        "C20_reads_every_wellformed_class : forall bs, accepted by a reader generated from jvms_env with the two-slot pool rule -> pool without Long/Double -> exists v, read_sty raw_env true fuel None class_ty bs = Ok (v, []) — the link from 'equal layouts' (C20_layout_is_jvms) to 'equal read behaviour' is argued from the layout/dispatch/attr_len theorems and checked by the oracle (independent strict JVMS walker on corpus, written and mutated files), not proved as one Coq theorem",
+        "closed form of `resolves` for attribute variants (attribute_name_index designates the Utf8 entry with the variant's own name, which no earlier variant claims): evaluated by the model on every generated value (case flag hyp) and exercised by the violating-4..7 streams, not stated as a theorem; the closed forms for the stack map frames ARE proved (C20_frames_closed_form)",
+        "C20_pool_count_full (unrestricted constant_pool_count = JVMS count): false today, known finding F10; kept as an unproved Definition",
+    ],
     "assumptions": [
         "class files fit in memory and are shorter than 2^32 bytes (ClassFile::length is u32 arithmetic); the harness is built with overflow checks, so arithmetic overflow inside a notation expression is a panic (modelled as Err), casts `as u8/u16/u32` truncate",
         "read_write holds for values inside `resolves` (numbers and counts fit their widths, each enum value's written tag selects its own variant when read, nowrite/length expressions evaluate back to the stored data) and environments inside `denv_wf` (every vector element type occupies at least one byte); both are decidable and checked on the generated table / by the correspondence run on generated values",
